@@ -4,7 +4,7 @@ use krp_harness::{chain, dump, kernel, ops, run_ops_text};
 
 fn usage() -> ! {
     eprintln!(
-        "usage:\n  krp-harness run OPSFILE          (OPSFILE `-` = stdin)\n  krp-harness kernel NAME SEED COUNT   (NAME = deleg|undeleg|ddiv|nwr|swapinfo|drewards)\n  krp-harness roundtrip OPSFILE    (parse and re-print every operation)\n  krp-harness explain OPSFILE      (like run, but prints op lines and failure reasons; diagnostics only)\nenvironment: KRP_NO_CACHE=1 disables the (sound) memoisation of dump fragments"
+        "usage:\n  krp-harness run OPSFILE          (OPSFILE `-` = stdin)\n  krp-harness kernel NAME SEED COUNT   (NAME = deleg|undeleg|ddiv|nwr|swapinfo|drewards)\n  krp-harness kernel-eval NAME     (stdin: `ARGS` lines; prints `ARGS => RESULT` from the real code)\n  krp-harness roundtrip OPSFILE    (parse and re-print every operation)\n  krp-harness explain OPSFILE      (like run, but prints op lines and failure reasons; diagnostics only)\nenvironment: KRP_NO_CACHE=1 disables the (sound) memoisation of dump fragments"
     );
     std::process::exit(2);
 }
@@ -121,6 +121,25 @@ fn main() {
                 Err(e) => {
                     eprintln!("krp-harness: {}", e);
                     std::process::exit(2);
+                }
+            }
+        }
+        "kernel-eval" => {
+            // read `ARGS` lines (optionally `ARGS => anything`) on stdin, print `ARGS => RESULT`
+            if args.len() != 3 {
+                usage();
+            }
+            let text = read_input("-");
+            for (ln, line) in text.lines().enumerate() {
+                if line.trim().is_empty() || line.trim_start().starts_with('#') {
+                    continue;
+                }
+                match kernel::eval_line(&args[2], line) {
+                    Ok(l) => writeln!(w, "{}", l).unwrap(),
+                    Err(e) => {
+                        eprintln!("krp-harness: line {}: {}", ln + 1, e);
+                        std::process::exit(2);
+                    }
                 }
             }
         }
